@@ -5,6 +5,7 @@ symbolic values), `bits` size rule, enum field size rule - contracts/layout.py o
 E3 (bounded, catalogue): the documented rules with their boundary cases as real modules through the
 real front end: accepted iff the language reference allows it, never an exception."""
 import importlib
+import os
 import multiprocessing
 import time
 import traceback
@@ -178,6 +179,24 @@ def main(args):
     constraints = importlib.import_module("compiler.front_end.constraints")
     tokenizer = importlib.import_module("compiler.front_end.tokenizer")
     words = sorted(constraints.get_reserved_word_list())
+    # ground: the table the checks consult holds exactly the words of compiler/front_end/reserved_words (read independently:
+    # text before '#', lines starting with '--' name a language), each with the first language that lists it
+    want, lang = {}, None
+    for line in open(os.path.join(core.REPO, "compiler", "front_end", "reserved_words")).read().splitlines():
+        t = line.split("#", 1)[0].strip()
+        if not t:
+            continue
+        if t.startswith("--"):
+            lang = t[2:].strip()
+        else:
+            want.setdefault(t, lang)
+    got = dict(constraints.get_reserved_word_list())
+    diff = sorted(set(want) ^ set(got)) + sorted(w for w in set(want) & set(got) if want[w] != got[w])
+    run.add(core.Obligation("ground.reserved-word-table-is-the-reserved_words-file", core.PROVED if not diff else core.REFUTED, "cpython-ground", 0.0, kind="ground",
+                            detail="%d words" % len(want) if not diff else "differences: %r" % diff[:8], model={"differences": diff[:20]} if diff else None,
+                            replay={"reproduced": True, "inputs": diff[:20]} if diff else None))
+    run.function("compiler.front_end.constraints._check_name_for_reserved_words (+ field / enum / parameter / type wrappers)",
+                 "pyvc: one error at the name, with language and kind of name, iff the name is in the reserved-word table (contracts/layout2.py); ground: the table is the reserved_words file")
     n_words = 0
     for w in words:
         toks, errs = tokenizer.tokenize(w, "")
